@@ -90,6 +90,9 @@ def edit_cases(ctx):
 def gen_cases(ctx):
     out = [("corpus", S.corpus_expr(l)) for l in S.load_corpus("C03")]
     out += edit_cases(ctx)
+    # malformed and unterminated quoted forms of every length (C05's list): each must be REJECTED WITH A PARSE ERROR — a crash is neither
+    import props.c05 as c05
+    out += [("malformed-quoted", e) for e in c05.malformed_quoted()]
     q = ctx.tier == "quick"
     out += abnf_cases(ctx, 4000 if q else 300000)
     # sentences by construction, nested 50 .. 900 deep (below the depth at which the known finding F12 — stack exhaustion — starts)
